@@ -108,7 +108,10 @@ def c06b(code: int, npos: int, kwmask: int, perm: int, extra: int, v0: int, v1: 
     kws = [ast.keyword(names[i], ast.Constant(vals[i])) for i in kwidx]
     if extra == 1:
         kws.append(ast.keyword("nosuchfield", ast.Constant(7)))
-    unknown = extra == 1
+    if extra == 2 and npos > 0:
+        # the last positional argument arrives as *(v,): how many fields it fills is not known when the query is built - a malformed use
+        args[-1] = ast.Starred(ast.Tuple([args[-1]], L), L)
+    unknown = extra == 1 or (extra == 2 and npos > 0)
     expect = None
     try:
         ba = inspect.signature(cls).bind_partial(*[vals[i] for i in range(npos)], **{names[i]: vals[i] for i in kwidx})
